@@ -101,12 +101,15 @@ func (c *queueClass_[V]) MakeFromArray(values []V) QueueLike[V] {
 
 func (c *queueClass_[V]) MakeFromSequence(values Sequential[V]) QueueLike[V] {
 	// Make room for all of the initial values so that adding them cannot block.
+	// The values are counted on the same snapshot they are read from: a source
+	// that is in use elsewhere (a queue with a producer at work) may list more
+	// values than the size it reported a moment earlier.
+	var iterator = values.GetIterator()
 	var capacity = c.defaultCapacity_
-	if uint(values.GetSize()) > capacity {
-		capacity = uint(values.GetSize())
+	if uint(iterator.GetSize()) > capacity {
+		capacity = uint(iterator.GetSize())
 	}
 	var queue = c.MakeWithCapacity(capacity)
-	var iterator = values.GetIterator()
 	for iterator.HasNext() {
 		var value = iterator.GetNext()
 		queue.AddValue(value) // This call handles the synchronization.
